@@ -445,9 +445,19 @@ func (h *Handler) isAllowed(ip net.IP) bool {
 }
 
 // AddAllowedRoute adds a CIDR route to the allowed routes list.
+// The list is a set: adding a network that is already present is a no-op, so
+// that a single RemoveAllowedRoute always revokes it (dynamic routes may be
+// re-added to update their metric).
 func (h *Handler) AddAllowedRoute(network *net.IPNet) {
 	h.routesMu.Lock()
 	defer h.routesMu.Unlock()
+
+	target := network.String()
+	for _, route := range h.cfg.AllowedRoutes {
+		if route.String() == target {
+			return
+		}
+	}
 	h.cfg.AllowedRoutes = append(h.cfg.AllowedRoutes, network)
 }
 
